@@ -87,10 +87,12 @@ def d32_class(cmd, rec, want, real):
 
 def observations(rec, m):
     """(implementation, model) observables of one step: outcome, flavors loaded per stack, reader's listing"""
-    impl_obs = {"out": rec["out"], "loaded": rec.get("loaded"), "view": rec.get("view"), "db": rec["db"]}
+    raw = {"vfiles": sorted(rec["raw"]["vfiles"]), "cfiles": sorted(rec["raw"]["cfiles"])} if "raw" in rec else None
+    impl_obs = {"out": rec["out"], "loaded": rec.get("loaded"), "view": rec.get("view"), "db": rec["db"], "raw": raw}
     has = rec.get("loaded") is not None
     model_obs = None if m is None else {"out": m["out"], "loaded": m["loaded"] if has else None,
-                                        "view": m["view"] if has else None, "db": m["db"]}
+                                        "view": m["view"] if has else None, "db": m["db"],
+                                        "raw": m.get("raw") if raw is not None else None}
     if m is not None and m.get("crashed") and rec["out"] == "Crashed":
         model_obs["out"] = "Crashed"
     return impl_obs, model_obs
@@ -98,7 +100,7 @@ def observations(rec, m):
 
 def oracle_i(ctx, i, sub, rec, impl_obs, model_obs):
     if model_obs is not None and common.jdump(model_obs) != common.jdump(impl_obs):
-        which = [k for k in ("out", "loaded", "view", "db") if common.jdump(model_obs[k]) != common.jdump(impl_obs[k])]
+        which = [k for k in ("out", "loaded", "view", "db", "raw") if common.jdump(model_obs[k]) != common.jdump(impl_obs[k])]
         ctx.disagree("+".join(which), sub, impl_obs, model_obs, note="step %d %s" % (i, rec.get("detail", "")))
         return False
     return True
